@@ -592,7 +592,7 @@ def oracle(ctx: Ctx, deep: bool = False):
         except Exception as e:  # noqa: BLE001
             yield Violation("masked-operator-raises", f"a masked operator raises {err_name(e)}: {e}", dict(rep, op="raises"))
     # (5) exhaustive small scope on bit patterns: every value class x every mask value, all four dtypes
-    if big or True:
+    if True:
         vals = torch.tensor([0.0, -0.0, 1.0, -2.5, float("inf"), float("-inf"), F32MAX, -F32MAX, 1e-45, -1e-45, 7.0, -7.0])
         k = vals.reshape(1, 6, 1, 2)
         for dn in MASK_DTYPES:
